@@ -54,6 +54,7 @@ def classification : List ((String × String × String) × Reason) := [
   (("internals/definition/struct.py", "params_from_ast", "construct"), .membershipOnly),
   (("internals/definition/struct.py", "parse", "construct"), .membershipOnly),
   (("internals/definition/struct.py", "parse", "iterate"), .minFirst),
+  (("internals/engine.py", "reset", "construct"), .membershipOnly),
   (("internals/tys/const.py", "bound_vars", "construct"), .resultIsSet),
   (("internals/tys/const.py", "unsolved_vars", "construct"), .resultIsSet),
   (("internals/tys/parsing.py", "parse_parameter", "construct"), .membershipOnly),
